@@ -50,7 +50,11 @@ pub fn registry() -> Vec<PropertyDef> {
 /// Properties that have a libFuzzer target (harness/fuzz/fuzz_targets/*.rs) and how bytes become cases.
 pub fn fuzz_registry() -> Vec<FuzzDef> {
   vec![
+    FuzzDef { id: "C01", decode: c01::fuzz_decode },
     FuzzDef { id: "C05", decode: c05::fuzz_decode },
+    FuzzDef { id: "C10", decode: c10::fuzz_decode },
     FuzzDef { id: "C13", decode: c13::fuzz_decode },
+    FuzzDef { id: "C14", decode: c14::fuzz_decode },
+    FuzzDef { id: "C17", decode: c17::fuzz_decode },
   ]
 }
